@@ -204,6 +204,63 @@ def o5(W, ob):
         ob.check(in_same_iteration, 'on_input|delivered-after-stored', 'events are built only after the frame was stored', 'Event::Input is built on a path that did not store the frame', where(f, st.line))
 
 
+
+def o6(W, ob):
+    """the bundled UDP socket: what cannot be parsed is skipped, what was parsed is kept"""
+    from .helpers import ret_alts
+    fs = [f for f in W.fns() if f.path.endswith('::receive_all_messages') and 'udp_socket' in f.path and f.kind != 'closure']
+    ob.require_count(len(fs), 1, 'UdpNonBlockingSocket::receive_all_messages')
+    if not fs:
+        return
+    f = fs[0]
+    cx = W.ctx(f)
+    cfg = cfg_of(f)
+    G = W.guards(f)
+    recv = [t for t in f.calls() if last_seg(t.callee.best) == 'recv_from']
+    des = [t for t in f.calls() if (t.callee.path or t.callee.best or '').startswith('bincode::') and 'deserialize' in last_seg(t.callee.best)]
+    push = [t for t in f.calls() if last_seg(t.callee.best) in ('push', 'push_back', 'extend')]
+    ob.require_count(len(recv), 1, 'recv_from')
+    ob.require_count(len(des), 1, 'deserialize')
+    ob.require_count(len(push), 1, 'push of a received message')
+    if not (recv and des and push):
+        return
+    # (a) a datagram that does not parse is skipped: after the attempt to deserialize, every path goes back to recv_from (none returns)
+    p1 = cfg.path_from_avoiding(des[0].bb, [recv[0].bb])
+    ob.check(p1 is None, 'receive_all_messages|malformed-skipped', 'whatever bincode makes of a datagram, the receive loop goes on to the next one',
+             'after a datagram was (or could not be) deserialized, receive_all_messages can return without looking at the datagrams behind it: one malformed '
+             'packet hides valid traffic queued after it', where(f, des[0].line), witness=path_str(f, p1) if p1 else None)
+    # (b) what is returned is the vector the messages were pushed to, on every return
+    acc = None
+    a0 = push[0].args[0]
+    if a0.is_place() and not a0.place.proj:
+        ds = cx.full_defs(a0.place.local)
+        if len(ds) == 1 and ds[0][0] == 'stmt' and ds[0][1].rv.k == 'ref' and not ds[0][1].rv.place.proj:
+            acc = ds[0][1].rv.place.local      # push(&mut acc, ..)
+    rets = []
+    for kind, d in cx.full_defs(0):
+        if kind == 'stmt' and d.rv.k == 'use' and d.rv.a is not None and d.rv.a.is_place() and not d.rv.a.place.proj:
+            rets.append(d.rv.a.place.local)
+        else:
+            rets.append(None)
+    ok = acc is not None and bool(rets) and all(r == acc for r in rets)
+    ob.check(ok, 'receive_all_messages|returns-collected', 'every return hands back the messages collected so far',
+             'receive_all_messages does not return the vector the messages are collected in on every exit: what was received before is dropped', where(f))
+    # (c) a message is kept whenever it parsed: nothing else conditions the push
+    eg = G.essential_guard(push[0].bb)
+    ok = all(all(a[0] == 'is' and a[2] in ('Ok', 'Some') and a[3] for a in c) for c in eg)
+    ob.check(ok, 'receive_all_messages|keeps-parsed', 'a datagram that parses is handed on unconditionally (filtering by address and magic is the endpoint\'s business: C08.O1)',
+             'a parsed message is kept only under `%s`' % dnf_str(eg)[:200], where(f, push[0].line))
+    # (d) exactly the received bytes are parsed
+    e = key(cx.expr_operand(des[0].args[0]))
+    ok = 'self.buffer[Range{start: 0, end: UdpSocket::recv_from(' in e and e.rstrip('}]').endswith('.Ok.0.0')
+    ob.check(ok, 'receive_all_messages|slice', 'the bytes parsed are buffer[0..n] with n the length recv_from reported',
+             'deserialize is given `%s`' % e[:160], where(f, des[0].line))
+    # (e) the source address travels with the message
+    a1 = key(cx.expr_operand(push[0].args[1]))
+    ok = a1.startswith('tuple{0: UdpSocket::recv_from(') and '.Ok.0.1, 1: ' in a1 and 'deserialize(' in a1
+    ob.check(ok, 'receive_all_messages|address-with-message', 'each message is paired with the source address of its own datagram', 'the pushed pair is `%s`' % a1[:200], where(f, push[0].line))
+
+
 def o4(W, ob):
     entries = [W.fn(UDP + '::handle_message')]
     st = panics.check_closure(W, ob, entries, 'untrusted-packet path (closure of UdpProtocol::handle_message)', 'O4')
@@ -253,6 +310,8 @@ from . import initial
 
 from . import removals
 
+from . import mustcall
+
 OBLIGATIONS = [
     ('C08.O1', 'filters dominate handlers', 'every handler dispatch and the last_recv_time refresh sit behind the Shutdown test and the magic '
      'test; both sessions hand a message to an endpoint only through a lookup of its source address.', o1),
@@ -263,10 +322,12 @@ OBLIGATIONS = [
     ('C08.O3', 'rejections emit nothing', 'after a decode / to_player_inputs error no frame is stored or announced; to_player_inputs checks '
      'player count and divisibility before slicing.', o3),
     ('C08.O5', 'stored <=> delivered', 'in on_input a frame recorded in recv_inputs (hence acknowledged and skipped as a duplicate from then on) is handed to the session on every path to return: no rejection of a LATER frame of the same packet may come between storing a frame and queueing its events.', o5),
+    ('C08.O6', 'the bundled UDP socket skips what it cannot parse and keeps what it parsed', 'in UdpNonBlockingSocket::receive_all_messages the loop goes on after a datagram bincode rejects (no path from the deserialize call to a return avoids the next recv_from); every return hands back the vector the parsed messages were pushed to; a parsed message is kept unconditionally, with the source address of its own datagram; exactly buffer[0..n] is parsed.', o6),
     ('C08.O4', 'no open panic site on the untrusted path', 'inventory of panic-capable sites over the closure of handle_message: each is '
      'discharged by analysis or listed with a reason; external callees are in the reviewed totality table; unsafe code is forbidden; the '
      'length invariants used are protected by writer checks.', o4),
     ('C08.H', 'helpers the rules above rely on', 'the bodies of the helpers named by this property\'s rules compute what the rules assume (last_recv_frame); see rules/helpers.py', helpers.bundle('last_recv_frame')),
     ('C08.I', 'initial state', 'every constructor gives the fields this property\'s rules interpret (NULL_FRAME = none / nothing yet, 0 = first frame, latches open, typestate start) the value listed in tables/initial_state.json; every field compared with NULL_FRAME anywhere is listed; see rules/initial.py', initial.rule_for('C08')),
     ('C08.R', 'who may remove', 'every call that takes elements out of a collection this property\'s rules rely on (keyed removal from a map, or bulk / positional removal) is one of the reviewed sites in tables/removals.json; a lookup turned into a removal, a second prune, a clear on another path is reported; see rules/removals.py', removals.rule_for('C08')),
+    ('C08.M', 'must-call floor', 'the calls listed for this property in tables/must_call.json are made on every path from the entry of their function to a normal return (interprocedural must-call): a new early return, fast path or extra condition in front of one of them is reported; see rules/mustcall.py', mustcall.rule_for('C08')),
 ]
